@@ -311,6 +311,18 @@ def ik2Pass (m : ModelS Q) (w : WS Q) (S : IKSet Q) (Qk QI : List Q) : Option Pa
   let trA := (Jl.map (fun row => lvDot row row)).foldl (· + ·) 0 + wn.foldl (· + ·) 0
   let wnMin := wn.foldl (fun mn x => if x < mn then x else mn) (wn.headD 1)
   if wnMin ≤ 0 || trA > (10 : Q) ^ 13 * wnMin then none else
+  -- An orientation error within 1e-6 of a half turn (`R Rtᵀ` symmetric up to 1e-6, trace < 1): the
+  -- routine takes the axis from `l / |l|` with `|l|` tiny, or (third branch) from
+  -- `sqrt (max 0 ((Rᵢᵢ + 1)/2))`, which turns a rounding error ε of the matrix into `sqrt ε` ≈ 1e-8 in
+  -- the components of the axis that should vanish: the implementation's `e` is then determined only
+  -- to about 1e-8 and the pass is not compared.
+  let nearHalfTurn := S.cons.any (fun c =>
+    (c.kind = .orientation || c.kind = .full) &&
+    (let R := (calcBodyWorldOrientation m w1 st c.body false).2
+     let M := R * c.targetOri.transpose
+     let l : V3 Q := ⟨M.m21 - M.m12, M.m02 - M.m20, M.m10 - M.m01⟩
+     decide (M.trace < 1) && decide (l.dot l < e10 12)))
+  if nearHalfTurn then none else
   let (ok, _, s) := inverseKinematicsCS solveQ transcQ trigQ m w Qv { S with maxSteps := 1 } 0 0
   let Q' := listOfVec m.qSize s.Q
   let task := fun (Qn : List Q) => Jl.map (fun row => lvDot row ((Qn.zip Qk).map (fun p => p.1 - p.2)))
